@@ -293,7 +293,8 @@ package filtering
 // CheckHost: first matching checker wins; whatever it is, nothing is blocked with protection off.
 //@ func (d *DNSFilter) CheckHost(host string, qtype uint16, setts *Settings) (res Result, err error)
 //@   property C01
-//@   requires tableOK(d) && !held(d.confMu) && !rheld(d.confMu)
+//@   requires tableOK(d)
+//@   requires !held(d.confMu) && !rheld(d.confMu)
 //@   ensures protection-off: res.IsFiltered ==> setts.ProtectionEnabled
 //@   ensures err != nil ==> !res.IsFiltered
 //@   ensures root: host == "" ==> res.Reason == NotFilteredNotFound && !res.IsFiltered && err == nil
